@@ -26,6 +26,10 @@ from torch.futures import Future
 REPO_MARKERS = ("/distributed_shampoo/", "/matrix_functions", "/optimizer_modules")
 
 
+class CollectiveMismatch(RuntimeError):
+    pass
+
+
 class SimAbort(BaseException):
     """Raised inside a parked rank thread when the world is being torn down."""
 
@@ -247,6 +251,7 @@ class Sim:
         self.choices: list[int] = []
         self.slots: dict[tuple, dict] = {}
         self.outcome = "ok"  # ok | deadlock | rank_failed | step_cap
+        self.mismatch: dict | None = None
         self.deadlock_info: list[dict] = []
         self.last = -1
         self.store = dist.HashStore()
@@ -276,11 +281,14 @@ class Sim:
         slot["op"][pg._rank] = op
         slot["payload"][pg._rank] = payload
         self.log.append((len(self.log), me.idx, "coll", pg._ranks, pg._key[1], seq, op, sizes, _repo_call_site()))
+        slot.setdefault("sizes", {})[pg._rank] = sizes
         if len(slot["payload"]) == pg._size:
             ops = set(slot["op"].values())
-            if len(ops) != 1:
-                slot["mismatch"] = dict(slot["op"])
-                raise RuntimeError(f"collective mismatch in group {pg._ranks}: {slot['op']}")
+            if len(ops) != 1 or len(set(slot["sizes"].values())) != 1:
+                # members of one group disagree on the collective they are in: with a real transport this is
+                # undefined behaviour (hang or garbage); the world stops here and the history checker reports it
+                self.mismatch = {"group": list(pg._ranks), "seq": seq, "ops": dict(slot["op"]), "sizes": {k: list(v) for k, v in slot["sizes"].items()}}
+                raise CollectiveMismatch(str(self.mismatch))
             _apply_collective(op, slot["payload"], pg._size)
             slot["done"] = True
             slot["payload"] = {}
